@@ -323,6 +323,8 @@ fn parse_helper(pat: &mut &str, result: &mut Vec<Atom>) -> Result<(), PatError> 
 		depth: usize,
 	}
 	let mut subs = Vec::<SubPattern>::new();
+	// Atoms before this index are the target of a break, wildcards after it must not be merged into them
+	let mut barrier = 0;
 	while let Some(mut chr) = iter.next().cloned() {
 		match chr {
 			// Follow signed 1 byte jump
@@ -400,6 +402,7 @@ fn parse_helper(pat: &mut &str, result: &mut Vec<Atom>) -> Result<(), PatError> 
 					}
 					result[brk] = Atom::Break(brk_offset as u8);
 				}
+				barrier = result.len();
 			},
 			// Skip many operator
 			b'[' => {
@@ -520,8 +523,9 @@ fn parse_helper(pat: &mut &str, result: &mut Vec<Atom>) -> Result<(), PatError> 
 				// 	_ => result.push(Atom::Skip(1)),
 				// };
 				// Coalescence skips together
+				let mergeable = result.len() > barrier;
 				if let Some(Atom::Skip(skip)) = result.last_mut() {
-					if *skip != PTR_SKIP && *skip < 255u8 {
+					if mergeable && *skip != PTR_SKIP && *skip < 255u8 {
 						*skip += 1;
 						continue;
 					}
